@@ -96,12 +96,14 @@ def snapshot(flavour="plain"):
     with Lock("snapshot"):
         stamp = os.path.join(snap.build, ".built")
         if os.path.exists(stamp):
+            os.utime(root)
             return snap
-        # drop snapshots of other trees (at most one is kept)
+        # drop old snapshots of other trees (the 4 most recently used are kept)
         os.makedirs(SCRATCH, exist_ok=True)
-        for d in os.listdir(SCRATCH):
-            if d.startswith("snap-") and d != "snap-" + th:
-                shutil.rmtree(os.path.join(SCRATCH, d), ignore_errors=True)
+        snaps = [d for d in os.listdir(SCRATCH) if d.startswith("snap-") and d != "snap-" + th]
+        snaps.sort(key=lambda d: os.path.getmtime(os.path.join(SCRATCH, d)), reverse=True)
+        for d in snaps[3:]:
+            shutil.rmtree(os.path.join(SCRATCH, d), ignore_errors=True)
         os.makedirs(os.path.join(root, "root"), exist_ok=True)
         if not os.path.exists(os.path.join(root, "root", ".copied")):
             shutil.copy(os.path.join(REPO, "README.md"), os.path.join(root, "root", "README.md"))
